@@ -4,6 +4,7 @@ use crate::work_dir;
 use anyhow::{Context, Result};
 use async_std::fs;
 use async_std::{path::PathBuf, task};
+use bincode::Options;
 
 /// File where the state of the target inputs and outputs are stored upon successful build.
 fn get_checksums_file_path(target: &TargetMetadata) -> PathBuf {
@@ -24,7 +25,16 @@ pub async fn read_saved_target_env_state(target: &TargetMetadata) -> Option<Targ
             let file = std::fs::File::open(&file_path).with_context(|| {
                 format!("Failed to open checksums file {}", &file_path.display())
             })?;
-            bincode::deserialize_from(file)
+            // A corrupted file can announce any length: no value it holds is longer than the file itself
+            let file_len = file
+                .metadata()
+                .with_context(|| format!("Failed to inspect checksums file {}", &file_path.display()))?
+                .len();
+            bincode::DefaultOptions::new()
+                .with_fixint_encoding()
+                .allow_trailing_bytes()
+                .with_limit(file_len)
+                .deserialize_from(file)
                 .with_context(|| format!("Failed to deserialize checksums for {}", target_id))
         })
         .await
